@@ -211,6 +211,12 @@ structure JState where
   foreign : List String := []                  -- binaries of another driver build / configuration / program name
   damaged : List String := []                  -- programs whose saved binary was damaged since it was written
   expects : List (String × String) := []       -- call ↦ the value the source text prescribes (string switch cases)
+  -- which version of every program is in memory (independent of the implementation's data structures: load numbers)
+  ctime : Nat := 0                             -- the driver's clock, from the `now` lines
+  loadCount : Nat := 0
+  mem : List (String × (Nat × Nat)) := []      -- program ↦ (number of the load that put it into memory, clock then)
+  links : List (String × List (String × Nat)) := []   -- program ↦ its parents and the load numbers it was linked with
+  poisoned : List (String × List (String × Nat)) := [] -- saved binary ↦ parents that were out of date when it was compiled
   deriving Inhabited
 
 def JState.flag (s : JState) (v : String) : JState := { s with bad := v :: s.bad }
@@ -232,6 +238,23 @@ def indirectInherits (s : JState) (prog : String) : List String :=
       let next := (frontier.flatMap (fun q => (declOf s q).inherits)).filter (fun q => !(seen.contains q))
       if next.isEmpty then seen else go next.eraseDups (seen ++ next.eraseDups) fuel
   (go direct direct 20).filter (fun q => !(direct.contains q))
+
+/-- the version of `p` with load number `g` is not what loading `p` now would give: it was replaced since, one of its
+    files was modified after it was loaded, or the same holds for a parent it is linked with -/
+def outdatedO (s : JState) : Nat → String → Nat → Bool
+  | 0, _, _ => true
+  | fuel + 1, p, g =>
+    match s.mem.lookup p with
+    | none => false          -- never seen entering memory: no claim
+    | some (g', t) =>
+      g' != g || (p :: (declOf s p).includes).any (fun f => match s.mt f with | some m => m > t | none => false) ||
+        ((s.links.lookup p).getD []).any (fun q => outdatedO s fuel q.1 q.2)
+
+/-- a program enters memory (compiled or loaded from its binary): a new load number, linked with the parents as loaded -/
+def registerLoad (s : JState) (prog : String) : JState :=
+  let g := s.loadCount + 1
+  let ls := (declOf s prog).inherits.map (fun p => (p, ((s.mem.lookup p).map (·.1)).getD 0))
+  { s with loadCount := g, mem := setKey s.mem prog (g, s.ctime), links := setKey s.links prog ls }
 
 /-- the property's rule, computed from the history alone -/
 def staleReasons (s : JState) (prog : String) : List String :=
@@ -267,6 +290,7 @@ def caseLine (s : JState) (line : String) : JState :=
     { s with decls := { name := name, includes := csv (kv rest "inc"), inherits := csv (kv rest "inh"),
                         save := kv rest "save" == "1", ssw := (kv rest "ssw").toNat? } :: s.decls.filter (·.name != name) }
   | ["expect", call, res] => { s with expects := (call, res) :: s.expects.filter (·.1 != call) }
+  | ["now", t] => { s with ctime := max s.ctime (t.toNat?.getD 0) }
   | "usort" :: rest => { s with pendingUnit := s.pendingUnit ++ [("usort" :: rest)] }
   | "ureloc" :: rest => { s with pendingUnit := s.pendingUnit ++ [("ureloc" :: rest)] }
   | "upatch" :: rest => { s with pendingUnit := s.pendingUnit ++ [("upatch" :: rest)] }
@@ -429,16 +453,24 @@ def traceLine (s : JState) (unitSeen : Nat) (line : String) : JState × Nat :=
     let s := (staleReasons s name).foldl JState.flag s
     let s := if s.damaged.contains name then s.flag s!"damaged-binary-used {name}" else s
     let s := if s.foreign.contains name then s.flag s!"foreign-binary-used {name}" else s
-    ({ s with used := name :: s.used }, unitSeen)
-  | ["lb", _, "stale"] => (s, unitSeen)
+    -- the binary was compiled against a version of a parent that was already out of date then, and that parent has
+    -- been loaded again since: the layout in the binary is not the one the current sources give
+    let s := (((s.poisoned.lookup name).getD []).filter (fun q => ((s.mem.lookup q.1).map (·.1)) != some q.2)).foldl
+      (fun s q => s.flag s!"stale-binary-used {name} dep=compiled-against-older-version-of:{q.1}") s
+    (registerLoad { s with used := name :: s.used } name, unitSeen)
+  | ["lb", name, "stale"] => (registerLoad s name, unitSeen)
   | ["lb", _, "needs", _] => (s, unitSeen)
   | "sv" :: name :: t :: _ =>
+    let old := ((s.links.lookup name).getD []).filter (fun q => outdatedO s 20 q.1 q.2)
     match t.toNat? with
     | some t =>
       let dm := s.damaged.filter (fun x => x != name)
       let fg := s.foreign.filter (fun x => x != name)
-      ({ s with binT := setKey s.binT name t, damaged := dm, foreign := fg }, unitSeen)
-    | none => (s.flag s!"save-failed {name}", unitSeen)
+      ({ s with binT := setKey s.binT name t, damaged := dm, foreign := fg, poisoned := setKey s.poisoned name old },
+       unitSeen)
+    | none =>
+      -- not written: right only when the program was compiled against an out-of-date parent
+      if old.isEmpty then (s.flag s!"save-failed {name}", unitSeen) else (s, unitSeen)
   | "restarted" :: _ => ({ s with simulTouchedSinceRestart := false }, unitSeen)
   | "D" :: tag :: rest =>
     let d := (s.cur.lookup tag).getD {}
@@ -462,7 +494,7 @@ def traceLine (s : JState) (unitSeen : Nat) (line : String) : JState × Nat :=
       if unitSeen + 1 ≥ unitOutputsOf cmd then ({ s with pendingUnit := more }, 0) else (s, unitSeen + 1)
     | [] => (s.flag s!"unexpected {line}", unitSeen)
   | t :: rest =>
-    if ["ft", "of", "ts", "reloc", "times"].contains t then
+    if ["ft", "of", "ts", "reloc", "times", "qs"].contains t then
       match s.pendingUnit with
       | cmd :: more =>
         let s := (judgeUnit cmd (t :: rest)).foldl JState.flag s
